@@ -762,8 +762,17 @@ fn define_extern_builtin(
         None => tast::Ty::TUnit,
     };
 
+    let name = ext.name.to_ident_name();
+    if env.current().value_env.funcs.contains_key(&name) {
+        diagnostics.push(Diagnostic::new(
+            Stage::Typer,
+            Severity::Error,
+            format!("Function {} is already defined", name),
+        ));
+        return;
+    }
     env.current_mut().value_env.funcs.insert(
-        ext.name.to_ident_name(),
+        name,
         FnScheme {
             type_params: vec![],
             constraints: (),
